@@ -43,6 +43,9 @@ type GenSpec struct {
 	Path string `json:"path"` // Go import path of the generated package
 	// NoPathFlag: run the generator as the repository's own go:generate lines do (without --path)
 	NoPathFlag bool `json:"no_path_flag"`
+	// RegenerateOver: another IDL file generated FIRST into the same output file (a regeneration over an
+	// existing, longer stub: what a developer's second `go generate` does)
+	RegenerateOver string `json:"regenerate_over"`
 }
 
 type PropertySpec struct {
@@ -212,6 +215,12 @@ func cmdCheck(args []string) {
 		genArgs := []string{"run", "-modfile=" + modfile, "./meta/cmd/stub", "--idl", filepath.Join(root, g.IDL), "--output", outFile}
 		if !g.NoPathFlag {
 			genArgs = append(genArgs, "--path", g.Path)
+		}
+		if g.RegenerateOver != "" {
+			pre := exec.Command("go", "run", "-modfile="+modfile, "./meta/cmd/stub", "--idl", filepath.Join(root, g.RegenerateOver), "--output", outFile)
+			pre.Dir = *repo
+			pre.Env = append(os.Environ(), "GOFLAGS=-mod=mod", "GOPROXY=off", "GOSUMDB=off", "GOTOOLCHAIN=local")
+			pre.CombinedOutput() // its own outcome is judged where that program is the subject
 		}
 		cmd := exec.Command("go", genArgs...)
 		cmd.Dir = *repo
